@@ -6,6 +6,7 @@ pub mod ops;
 pub mod fingerprint;
 pub mod e1;
 pub mod e1run;
+pub mod e2;
 pub mod e3;
 pub mod report;
 pub mod checks;
@@ -69,6 +70,7 @@ fn main() {
                 "C20" => checks::c20::run(&tier, &args),
                 "C15" => checks::c15::run(&tier, &args),
                 "C08" => checks::c08::run(&tier, &args),
+                "C07" => checks::c07::run(&tier, &args),
                 _ => { eprintln!("unknown property {id}"); 2 }
             };
             std::process::exit(code);
